@@ -207,7 +207,9 @@ class Ref:
         cls = W.CLASSES[clsname]
         seen = set()
         out = []
-        for o in self.world[domkey]:
+        # a variable declared without a domain ranges over every instance of the type (the world's objects are all there is)
+        members = self.world[domkey] if style not in ("bare", "barecall") else [o for d in self.world.values() for o in d]
+        for o in members:
             if isinstance(o, cls) and id(o) not in seen:
                 seen.add(id(o))
                 out.append(o)
